@@ -339,7 +339,7 @@ pub fn run(tier: Tier) -> i32 {
     let rep: &'static Report = Box::leak(Box::new(Report::new("C20", tier, "model_checking")));
     let monitor = std::sync::Arc::new(HangMonitor::start(rep, "C20 setter history"));
     let depth: u8 = tier.pick(2, 3);
-    rep.set_rule("HIST (stateright BFS): all histories of real Condition setter calls up to the depth bound over the listed value alphabet, on V0, a generated 2-stream voice and a generated 4-stream voice, each call made on a copy of the previous state's Condition (which must stay as it was); states merged by (depth, Debug rendering of the real Condition); a state is non-trivial if it differs from the initial rendering; invariant: every getter equals the clamped reference after every call");
+    rep.set_rule("HIST (stateright BFS): all histories of real Condition setter calls up to the depth bound over the listed value alphabet, on V0, a generated 2-stream voice and a generated 4-stream voice, each call made on a copy of the previous state's Condition (which must stay as it was); states merged by (depth, Debug rendering of the real Condition); a state is non-trivial if it differs from the initial rendering; plus a search to closure (depth cap 7/9) over the per-stream setters alone; invariant: every getter equals the clamped reference after every call");
     rep.assume("f64 arguments are the 12-value alphabet {0,-0,±1,.5,1e-7,5e-324,±1e300,2,±24}; usize {0,1,2,48000,MAX}; other values are not explored");
     rep.assume("getter vs reference compared numerically (so -0.0 == 0.0), volume within 1e-9 dB");
     let mut total_states = 0u64;
@@ -391,6 +391,55 @@ pub fn run(tier: Tier) -> i32 {
             return 2;
         }
         rep.note(&format!("bounds_{}", if ec.nstream == 3 { "V0" } else if ec.nstream == 2 { "G2" } else { "G4" }), json!({"alphabet": acts.len(), "depth": depth, "unique_states": counts[0].0, "max_depth": counts[0].1}));
+    }
+    // deeper histories on a reduced alphabet: the per-stream setters only (threshold and GV weight of every stream, each
+    // set to its default, to another value, to a value that is clamped), explored until no new state appears - "all
+    // setter call orders" for the setters that share a container
+    {
+        let e = jbonsai::Engine::load(&[BUNDLED]).expect("bundled voice loads");
+        let acts: Vec<Act> = (0..3).flat_map(|i| vec![Act::Msd(i, 0.5), Act::Msd(i, 0.25), Act::Msd(i, 7.0), Act::Gv(i, 1.0), Act::Gv(i, 0.25), Act::Gv(i, -3.0)]).collect();
+        let mut seen: std::collections::BTreeSet<(String, String)> = std::collections::BTreeSet::new();
+        let init_ref = RefCond::initial(48000, 240, 0.55, 3);
+        let mut frontier: Vec<(Condition, RefCond, Vec<Act>)> = vec![(e.condition.clone(), init_ref.clone(), vec![])];
+        seen.insert((format!("{:?}", e.condition), format!("{:?}", init_ref)));
+        let max_depth = tier.pick(7usize, 9usize);
+        let (mut states, mut transitions, mut closed_at) = (1u64, 0u64, None);
+        'bfs: for depth in 0..max_depth {
+            let mut next = Vec::new();
+            for (cond, reference, hist) in &frontier {
+                for a in &acts {
+                    transitions += 1;
+                    let mut c = cond.clone();
+                    let mut r = reference.clone();
+                    let res = catch(|| a.apply(&mut c));
+                    r.apply(a);
+                    let mut h = hist.clone();
+                    h.push(a.clone());
+                    let bad = match res {
+                        Err(p) => Some(format!("panic in {:?}: {}", a, p)),
+                        Ok(()) => r.mismatch(&c).map(|m| format!("after {:?}: {}", a, m)),
+                    };
+                    if let Some(what) = bad {
+                        rep.violation(format!("per-stream-history:{}", what.split(':').nth(1).unwrap_or("").split_whitespace().next().unwrap_or("")), format!("{} on V0 after history {:?}", what, h), json!({"engine": "V0", "history": h.iter().map(|a| a.to_json()).collect::<Vec<_>>()}));
+                        break 'bfs;
+                    }
+                    if seen.insert((format!("{:?}", c), format!("{:?}", r))) {
+                        states += 1;
+                        next.push((c, r, h));
+                    }
+                }
+            }
+            if next.is_empty() {
+                closed_at = Some(depth + 1);
+                break;
+            }
+            frontier = next;
+        }
+        rep.eval(transitions);
+        rep.states.fetch_add(states, std::sync::atomic::Ordering::Relaxed);
+        rep.transitions.fetch_add(transitions, std::sync::atomic::Ordering::Relaxed);
+        rep.note("per_stream_histories", json!({"actions": acts.len(), "states": states, "transitions": transitions, "closed_at_depth": closed_at, "depth_cap": max_depth}));
+        rep.guard(states > 100, "per-stream history exploration found hardly any states");
     }
     rep.note("generated_states", json!(total_states));
     rep.guard(total_unique > 100, "fewer than 100 unique states");
